@@ -52,7 +52,7 @@ def rand_history(seed: int) -> list:
         holder.body.append(par)
     events = []
     nsteps = rng.randint(1, 5)
-    KINDS = ["wrap_offset", "wrap_offset", "wrap_pattern", "mark_occurrence", "mark_position", "mark_range", "mark_content", "strip_tags", "delete"]
+    KINDS = ["wrap_offset", "wrap_offset", "wrap_pattern", "mark_occurrence", "mark_position", "mark_range", "mark_content", "strip_tags", "delete", "strip_self"]
     MARKS = {"mark_occurrence", "mark_position", "mark_range", "mark_content", "delete"}
     kinds = [rng.choice(KINDS) for _ in range(nsteps)]
     if rng.random() < 0.3:
@@ -91,6 +91,12 @@ def rand_history(seed: int) -> list:
             o = {"op": kind, "a": a, "b": rng.randint(a, total + 2), "alone": note_ok}
         elif kind == "strip_tags":
             o = {"op": kind, "tag": rng.choice(["span", "a"])}
+        elif kind == "strip_self":
+            idx = [i + 1 for i, t in enumerate(tokens) if t["k"] == "o"]
+            if not idx:
+                continue
+            i = rng.choice(idx)
+            o = {"op": kind, "i": i, "tag": tokens[i - 1]["tag"] if rng.random() < 0.7 else rng.choice(["span", "a"])}
         else:
             idx = [i + 1 for i, t in enumerate(tokens) if t["k"] in ("o", "e")]
             if not idx:
